@@ -196,6 +196,17 @@ pub fn run(ctx: &Ctx) -> (Outcome, String, Option<bool>) {
             dists.push(Dist { stakes, subsets, sig_class: 0, blocks: 0 });
         }
     }
+    // shares just above two thirds (69/103, 667/1000, ...): three stakers (k+1, k, k) with the first two signing,
+    // and totals around multiples of 3
+    for k in [34u64, 35, 100, 333, 334, 1000, 33_333, 1_000_000, 1_000_000_000_000] {
+        for (a, b, c) in [(k + 1, k, k), (k, k, k), (k + 1, k + 1, k), (2 * k + 1, k, 0), (2 * k, k, 0), (2 * k + 1, k + 1, 0)] {
+            let mut stakes = vec![(0u8, a, 0u64, 10u64), (1, b, 0, 10)];
+            if c > 0 {
+                stakes.push((2, c, 0, 10));
+            }
+            dists.push(Dist { stakes, subsets: (0..8u8).collect(), sig_class: 0, blocks: 0 });
+        }
+    }
     let n_exh = dists.len();
     let mut out = run_enumeration(ctx, "exhaustive-distributions", dists, |d, st, shard| {
         let r = check_dist(d, st, shard);
@@ -222,7 +233,7 @@ pub fn run(ctx: &Ctx) -> (Outcome, String, Option<bool>) {
         |d, st, shard| check_dist(d, st, shard),
     );
     out.absorb(o);
-    let rule = format!("Enumerated: every assignment of weights {{1,2,3,5,10}} to 1-{} stakers with distinct keys, active from epoch 0, x every subset of signers with valid signatures (exhaustive: true refers to this sub-space). Sampled: 1-6 stakes over 5 keys (several per key), weights to 1000, stakes starting later or already ended, signer subsets, and signatures that are valid / bit-flipped / made by another key / over another header / truncated, plus a foreign signer. Oracle: an invalid signature => not confirmed; all valid and 3*present > 2*total => confirmed; 3*present < 2*total => not confirmed (equality unspecified); over the valid-signature subsets, adding a signer never turns confirmed into not confirmed. For every all-valid case a sibling state (same network, height and stakers, different fee pool) must not be confirmed by the proof that just confirmed the first state. Non-trivial = proper non-empty signer subset with total > 0; distinct by (stakes, subset, signature class).", max_stakers);
+    let rule = format!("Enumerated: every assignment of weights {{1,2,3,5,10}} to 1-{} stakers with distinct keys, active from epoch 0, x every subset of signers with valid signatures (exhaustive: true refers to this sub-space). Also enumerated: 54 near-threshold distributions ((k+1,k,k), (2k+1,k), ... for k from 34 to 10^12) x all signer subsets. Sampled: 1-6 stakes over 5 keys (several per key), weights to 1000, stakes starting later or already ended, signer subsets, and signatures that are valid / bit-flipped / made by another key / over another header / truncated, plus a foreign signer. Oracle: an invalid signature => not confirmed; all valid and 3*present > 2*total => confirmed; 3*present < 2*total => not confirmed (equality unspecified); over the valid-signature subsets, adding a signer never turns confirmed into not confirmed. For every all-valid case a sibling state (same network, height and stakers, different fee pool) must not be confirmed by the proof that just confirmed the first state. Non-trivial = proper non-empty signer subset with total > 0; distinct by (stakes, subset, signature class).", max_stakers);
     (out, rule, Some(true))
 }
 
